@@ -709,4 +709,79 @@ theorem forward_fwdFinal {n : Nat} {a : Adj} {w : Nat → Rat} {j : Nat} (hj : j
     FwdFinal n a w j offsets (forward offsets k flat w n 0 (fwdInit n w T j)) :=
   forward_inv k flat lay hflat n [] j _ (Inv.init n a w j hj offsets T) (by simp)
 
+/-! ### the arrays of the wrapper satisfy `Layout` (undirected network) -/
+
+theorem sum_take_succ_getD (k : List Nat) : ∀ m, (k.take (m + 1)).sum = (k.take m).sum + k.getD m 0 := by
+  induction k with
+  | nil => intro m; simp
+  | cons x t ih =>
+    intro m
+    cases m with
+    | zero => simp
+    | succ m => simp only [List.take_succ_cons, List.sum_cons, ih m]; simp; omega
+
+theorem sum_take_mono (k : List Nat) (m d : Nat) : (k.take m).sum ≤ (k.take (m + d)).sum := by
+  induction d with
+  | zero => simp
+  | succ d ih => rw [← Nat.add_assoc, sum_take_succ_getD]; omega
+
+theorem offsetsOf_getD (k : List Nat) (i : Nat) (hi : i < k.length) :
+    (offsetsOf k).getD i 0 = (k.take i).sum := by
+  simp [offsetsOf, List.getD, hi]
+
+theorem degArr_length (n : Nat) (a : Adj) : (degArr n a).length = n := by simp [degArr]
+
+theorem degArr_getD (n : Nat) (a : Adj) (i : Nat) (hi : i < n) :
+    (degArr n a).getD i 0 = (nbrs n a i).length := by
+  simp [degArr, List.getD, hi, outdeg_eq_length]
+
+theorem flatArr_length (n : Nat) (a : Adj) : (flatArr n a).length = ((degArr n a).take n).sum := by
+  have : (degArr n a).take n = degArr n a := by
+    rw [List.take_of_length_le]; rw [degArr_length]
+  rw [this]
+  simp only [flatArr, degArr, List.length_flatMap]
+  congr 1
+  apply List.map_congr_left
+  intro x _
+  rw [outdeg_eq_length]
+
+theorem wrapper_layout (n : Nat) (a : Adj) (hsym : ∀ x y, a x y = a y x) :
+    Layout n a (offsetsOf (degArr n a)) (flatArr n a).length (fun l => (nbrs n a l).length) := by
+  have hoff : ∀ l, l < n → (offsetsOf (degArr n a)).getD l 0 + (nbrs n a l).length
+      = ((degArr n a).take (l + 1)).sum := by
+    intro l hl
+    rw [offsetsOf_getD _ _ (by rw [degArr_length]; exact hl), sum_take_succ_getD, degArr_getD n a l hl]
+  have hlt : ∀ l l', l < n → l' < n → l < l' →
+      (offsetsOf (degArr n a)).getD l 0 + (nbrs n a l).length ≤ (offsetsOf (degArr n a)).getD l' 0 := by
+    intro l l' hl hl' h
+    rw [hoff l hl, offsetsOf_getD _ _ (by rw [degArr_length]; exact hl')]
+    obtain ⟨d, rfl⟩ := Nat.exists_eq_add_of_le (show l + 1 ≤ l' by omega)
+    exact sum_take_mono _ _ _
+  refine ⟨?_, ?_, ?_⟩
+  · intro l hl
+    rw [hoff l hl, flatArr_length]
+    obtain ⟨d, hd⟩ := Nat.exists_eq_add_of_le (show l + 1 ≤ n by omega)
+    rw [hd]
+    exact sum_take_mono _ _ _
+  · intro l l' hl hl' hne
+    by_cases h : l < l'
+    · exact Or.inl (hlt l l' hl hl' h)
+    · exact Or.inr (hlt l' l hl' hl (by omega))
+  · intro l R hl hR hmem
+    have hsub : R ⊆ nbrs n a l := by
+      intro x hx
+      obtain ⟨hx1, hx2⟩ := hmem x hx
+      exact mem_nbrs.mpr ⟨hx1, by rw [hsym]; exact hx2⟩
+    exact (List.Nodup.subperm hR hsub).length_le
+
+/-- **forward phase of `_nsi_betweenness` on the wrapper's arrays**, every undirected network, every
+weight vector and every target `j < N` -/
+theorem forward_wrapper_fwdFinal (n : Nat) (a : Adj) (hsym : ∀ x y, a x y = a y x) (w : Nat → Rat)
+    (j : Nat) (hj : j < n) :
+    FwdFinal n a w j (offsetsOf (degArr n a))
+      (forward (offsetsOf (degArr n a)) (degArr n a) (flatArr n a) w n 0
+        (fwdInit n w (flatArr n a).length j)) :=
+  forward_fwdFinal hj (degArr n a) (flatArr n a) (wrapper_layout n a hsym)
+    (fun i hi => wrapper_slice n a i hi)
+
 end Pyunicorn.NetBetw
